@@ -245,6 +245,25 @@ def test_text_models(seed):
                 g = [bytes(x) for x in g]
             assert g == exp, ("bytes.%s%r on %r: model %r, python %r" % (name, args, data, g, exp))
             n += 1
+        # strict UTF-8 decoding of symbolic bytes (valid and invalid sequences)
+        for raw in (data, "é€😀a".encode()[: 1 + it % 10], bytes([0xC3, 0x28]), bytes([0xE0, 0x80, 0x80]), bytes([0xED, 0xA0, 0x80]), bytes([0xF4, 0x90, 0x80, 0x80]), bytes([0x80]), "añb".encode()):
+            cu = Ctx([])
+            core.CTX = cu
+            uv = [z3.Int("u%d" % i) for i in range(len(raw))]
+            for v, b in zip(uv, raw):
+                cu.assume(v == b)
+            try:
+                exp = raw.decode("utf-8")
+            except UnicodeDecodeError:
+                exp = UnicodeDecodeError
+            try:
+                got = SymSeq([SymInt(v, ub=256) for v in uv], "bytes").decode("utf-8")
+                assert cu.check() == z3.sat
+                got = _conc(got, cu.solver.model())
+            except UnicodeDecodeError:
+                got = UnicodeDecodeError
+            assert got == exp, ("utf-8 decode", raw, got, exp)
+            n += 1
         # integer conversions
         c = Ctx([])
         core.CTX = c
